@@ -848,6 +848,8 @@ class _Reads:
             n = len(b.stmts)
             tg = [g for g in W.cg.targets(t.callee) if g.kind != 'closure']
             if not tg:
+                if last_seg(t.callee.best or '') in ('index', 'index_mut', 'deref', 'deref_mut', 'as_ref', 'as_mut', 'borrow', 'borrow_mut', 'get_mut', 'iter_mut', 'values_mut'):
+                    continue     # hands out a reference into the container: the read (or write) is what is done through it, recorded with its full path
                 for a2 in t.args:
                     if a2.is_place():
                         a = path(a2.place)
@@ -875,6 +877,10 @@ class _Reads:
         if not _stack:
             self.memo[fn] = res
         return res
+
+
+ORDER_ACCESSORS = {'index_mut', 'iter_mut', 'get_mut', 'values_mut', 'deref_mut', 'as_mut', 'as_mut_slice', 'last_mut', 'first_mut', 'front_mut', 'back_mut', 'borrow_mut', 'entry',
+                   'into_iter', 'next', 'by_ref'}
 
 
 def compute_orders(W):
@@ -954,6 +960,8 @@ def compute_orders(W):
             t = b.term
             if b.cleanup or b.id not in cfg.reach or t.k != 'call' or W.cg.targets(t.callee):
                 continue
+            if last_seg(t.callee.best or '') in ORDER_ACCESSORS:
+                continue     # index_mut / iter_mut / get_mut ... hand out a reference: the write is the store made through it, recorded with its full path
             for i2, ty in enumerate(t.arg_tys or []):
                 if ty.startswith('&mut ') and t.args[i2].is_place():
                     a = fld2(t.args[i2].place)
